@@ -13,6 +13,12 @@ hfp: `hfp.HfProtocol` <-> `hfp.AgProtocol` over such a data link with generated 
 indicator / HF-indicator / codec / call-hold lists; negotiated views of both ends are compared
 after `initiate_slc()`; an AT monitor on the gateway's DLC pairs every command line the gateway
 receives with the result codes it writes (commands driven through the HF API and written raw).
+
+extension: readers that are without a sink for a while (the DLC's queue for a late sink, up to its capacity),
+the receiver-side credit ledger (DLC.rx_credits against the wire), several RFCOMM sessions one after the other
+between the same devices (Client.shutdown / multiplexer disconnect / ACL loss, then set-up again), a data link
+closed while the others are busy; HFP: bursts of command lines (several per chunk, lines cut by the frame size),
+codec connection set-up started by either side with the active codec of both ends compared.
 """
 
 from __future__ import annotations
@@ -27,6 +33,7 @@ from vlib import vloop, world
 from vlib.runner import HarnessError
 
 PROPERTY = 'C20'
+LIVELOCK_ITERATIONS = 300_000  # per case; see rfcomm/progress/livelock
 LEVEL = 'exploration'
 RULE = (
     'rfcomm: carrier {BR/EDR, LE} x L2CAP MTU of client and server (48..65535, dense around the 1-/2-byte '
@@ -45,7 +52,26 @@ RULE = (
     'the SLC a program of commands: every command of the harness table of HF-role commands through the HF API '
     '(HfProtocol methods / execute_command) with valid values, and raw lines AT+<known or unknown '
     'name><form><0..5 valid values> written on the DLC. non-trivial = (HF mask, AG mask) is not one of the two '
-    'pairs tests/hfp_test.py uses, or the program is not empty; distinct by configuration + program.'
+    'pairs tests/hfp_test.py uses, or the program is not empty; distinct by configuration + program. '
+    'EXTENSION rfcomm: (a) readers without sink: DLC.sink = None on either side of one of 1..3 data links, then '
+    '0 .. DEFAULT_RX_QUEUE_SIZE frames towards it (directed family: exactly 1, 15, 16, 17, cap-1, cap frames, one '
+    'write per frame with the credits coming back in between, frame sizes 23/128/1000, both readers, both '
+    'carriers), the sink-less side keeps writing (its frames carry the credits), traffic on the other links, then '
+    'the sink is set again - twice in a row, the second assignment must deliver nothing - or the link is closed / '
+    'the session ends; up to 4 rounds per case; (b) the receiver-side ledger is compared at every comparison point '
+    'of every rfcomm case; (c) sessions one after the other: 2..3 RFCOMM sessions between the same two devices, each '
+    'ended by Client.shutdown, multiplexer disconnect by client / server, or loss of the ACL link closed by client / '
+    'server (data links open), the next one on a new L2CAP channel (new ACL link after a loss) with the same or a '
+    'new Client object and the same or another client L2CAP MTU, the data links opened again on the same channels '
+    '(directed: every ending x carrier x same/new Client x 3 frame-size layouts); (d) a data link closed while the '
+    'OTHER links have frames in flight (only the closing link is drained). '
+    'EXTENSION hfp: (e) bursts: 2..10 command lines (raw table, HF-role table, lines of 20..80 bytes that do not '
+    'fit a small frame) written in ONE DLC.write or one write per line without waiting, frame sizes 23..64 and 1000, '
+    'credits 1..7: the gateway reader gets chunks with several commands, with the tail of one and the head of the '
+    'next; every raw arity / form variant of the enumeration again in bursts of 8 (thorough: 8, 3, 5) lines; (f) '
+    'codec connection set-up after the SLC: started by the gateway (AgProtocol.negotiate_codec with the HF routine '
+    'HfProtocol.run() answering +BCS) and by the HF (setup_codec_connection), each codec of the HF list, mixed '
+    'with AT+BCS / AT+BAC in bursts; codecs the HF does not have (HF re-sends AT+BAC).'
 )
 ASSUMPTIONS = [
     '"negotiated maximum payload" is taken per direction as the value the RECEIVER advertised in its PN '
@@ -62,6 +88,25 @@ ASSUMPTIONS = [
     'raw AT lines are syntactically valid (AT+NAME[=|?|=?][v,..] with decimal values that are valid for the '
     'command); malformed lines belong to C17',
     'HFP cases use HCI delays <= 5 ms so that the 1 s command timeout of HfProtocol is not what is tested',
+    'a reader without a sink (DLC.sink = None, as every DLC is between open_dlc() and the first sink assignment) is '
+    'inside the domain as long as no more frames arrive than the DLC keeps for a late sink '
+    '(rfcomm.DEFAULT_RX_QUEUE_SIZE, read from the module); the harness charges ceil(size / (frame size - 1)) frames '
+    'per write against that bound and skips the writes beyond it; what happens to frame cap+1 is left open; the '
+    'sink goes away only when nothing is in flight towards it',
+    'receiver-side ledger: DLC.rx_credits is compared with (credits advertised in its PN + credits it sent on the '
+    'wire - data frames it received), the mirror image of the sender-side comparison: by the receiver\'s own books '
+    'the sender must not be transmitting without a credit either; no upper bound on granted credits is imposed',
+    'after the loss of the ACL link only MATCHING multiplexer states are demanded (Bumble leaves both CONNECTED); '
+    'the data links that were open must be closed on both ends, as after Client.shutdown()',
+    'bursts: the gateway handles the command lines of a chunk synchronously one after the other, so the k-th final '
+    'result code written while a chunk is processed is attributed to the k-th command line completed by that chunk; '
+    'a result code written while no command of the chunk is open counts for the last command before it; result '
+    'codes the harness makes the gateway send unsolicited (+BCS:) are attributed to no command',
+    '"the same negotiated codecs" includes the codec selected by a COMPLETED codec connection set-up '
+    '(HfProtocol.active_codec == AgProtocol.active_codec == the codec), judged only when both sides have the '
+    'codec-negotiation feature and the HF offers that codec (for other codecs the HF answers AT+BAC and '
+    'AgProtocol.negotiate_codec() waits for ever by design - not generated); indicator values pushed by +CIEV after '
+    'the SLC are not judged (the statement speaks of the indicators the SLC ends with)',
 ]
 SHRINK_KEYS = ('ops', 'commands', 'dc', 'ds', 'ag_indicators')
 
@@ -171,8 +216,9 @@ class WireMonitor:
         n1: dict = {}  # (dlci, side) -> max frame size that side advertised
         k: dict = {}  # (dlci, side) -> initial credits that side advertised
         avail: dict = {}  # (dlci, sender side) -> credits the sender holds
+        book: dict = {}  # (dlci, receiver side) -> credits that side has put on the wire and not yet seen used
         stats = {'data_frames': {}, 'credit_only': 0, 'two_byte_len': 0, 'frames': 0, 'avail': avail,
-                 'max_payload': 0, 'grants': {}}
+                 'max_payload': 0, 'grants': {}, 'book': book}
         for kind, side, pdu in self.events:
             f = decode_frame(pdu)
             peer = OTHER[side]
@@ -186,6 +232,15 @@ class WireMonitor:
                             f'{side} sent an RFCOMM frame of {len(pdu)} bytes (payload {f.length}, '
                             f'credit byte {"yes" if f.credit is not None else "no"}); the peer\'s L2CAP MTU is '
                             f'{self.l2cap_mtu[peer]}'), stats
+                if f.type == T_UIH and f.dlci == 0:
+                    pn = decode_pn(f.payload)
+                    if pn is not None:
+                        # the sender of a PN opens its own book with the credits it advertises
+                        book[(pn[1], side)] = pn[3]
+                        if pn[0]:
+                            book.pop((pn[1], peer), None)
+                elif f.type == T_UIH and f.credit is not None and (f.dlci, side) in book:
+                    book[(f.dlci, side)] += f.credit
                 if f.type == T_UIH and f.dlci != 0:
                     limit = n1.get((f.dlci, peer))
                     if limit is not None and f.length > limit:
@@ -225,6 +280,8 @@ class WireMonitor:
                     if key in avail:
                         avail[key] += f.credit
                         stats['grants'][key] = stats['grants'].get(key, 0) + 1
+                if f.type == T_UIH and f.dlci != 0 and f.length > 0 and book.get((f.dlci, side), 0) > 0:
+                    book[(f.dlci, side)] -= 1
         return None, stats
 
 
@@ -291,6 +348,9 @@ class Rig:
         self.on_accept = None
         mtu = case['l2cap_mtu']
         self.monitor = WireMonitor({CLIENT: int(mtu[0]), SERVER: int(mtu[1])})
+        self.monitors = [self.monitor]  # one per RFCOMM session (L2CAP channel)
+        self.conn_c = None
+        self.conn_s = None
 
     async def build(self):
         case = self.case
@@ -299,9 +359,10 @@ class Rig:
         self.world = w
         await w.power_on()
         if classic:
-            conn_c, _conn_s = await w.connect_classic(0, 1)
+            conn_c, conn_s = await w.connect_classic(0, 1)
         else:
-            conn_c, _conn_s = await w.connect_le(0, 1)
+            conn_c, conn_s = await w.connect_le(0, 1)
+        self.conn_c, self.conn_s = conn_c, conn_s
         self.phase = 'mux_setup'
         self.server = rfcomm.Server(w[1].device, l2cap_mtu=int(case['l2cap_mtu'][1]))
 
@@ -311,6 +372,21 @@ class Rig:
 
         self.server.on('start', on_start)
         self.client = rfcomm.Client(conn_c, l2cap_mtu=int(case['l2cap_mtu'][0]))
+        self.client_mux = await self.client.start()
+        self.monitor.hook(CLIENT, self.client_mux.l2cap_channel)
+
+    async def new_session(self, client_mtu: int, new_acl: bool, same_client: bool) -> None:
+        """Another RFCOMM session after a teardown: new L2CAP channel (on a new ACL link if asked)."""
+        if new_acl:
+            if self.case['carrier'] == 'classic':
+                self.conn_c, self.conn_s = await self.world.connect_classic(0, 1)
+            else:
+                self.conn_c, self.conn_s = await self.world.connect_le(0, 1)
+        self.monitor = WireMonitor({CLIENT: int(client_mtu), SERVER: self.monitors[0].l2cap_mtu[SERVER]})
+        self.monitors.append(self.monitor)
+        self.server_mux = None
+        if not (same_client and not new_acl and self.client.l2cap_mtu == int(client_mtu)):
+            self.client = rfcomm.Client(self.conn_c, l2cap_mtu=int(client_mtu))
         self.client_mux = await self.client.start()
         self.monitor.hook(CLIENT, self.client_mux.l2cap_channel)
 
@@ -376,12 +452,15 @@ class Link:
 def exec_rfcomm(case) -> Collector:
     col = Collector()
     loop = vloop.new_loop()
+    loop.max_iterations = LIVELOCK_ITERATIONS
     rig = Rig(case)
     links = [Link(i, spec) for i, spec in enumerate(case['links'])]
     by_channel = {l.channel: l for l in links}
     arrived = None
     all_streams: list[Stream] = []
     state = {'op': None, 'wait': None}
+    held: dict = {}  # (link index, reader side) -> frames that may still arrive while that reader has no sink
+    queue_cap = int(getattr(rfcomm, 'DEFAULT_RX_QUEUE_SIZE', 32))
 
     def make_sink(link: Link, reader: str):
         writer = OTHER[reader]
@@ -419,6 +498,11 @@ def exec_rfcomm(case) -> Collector:
 
     rig.on_accept = on_accept
 
+    def frame_of(link: Link, writer: str) -> int:
+        """Payload bytes per frame of `writer` in the current session (receiver's PN and L2CAP MTU)."""
+        reader = OTHER[writer]
+        return max(2, min(int(link.spec[reader][0]), rig.monitor.l2cap_mtu[reader] - 5))
+
     def check_streams() -> bool:
         for link in links:
             if link.bad is not None:
@@ -455,24 +539,49 @@ def exec_rfcomm(case) -> Collector:
         for link in links:
             for w in (CLIENT, SERVER):
                 s = link.stream[w]
-                if s is not None and link.open and s.received < s.written:
+                if s is not None and link.open and s.received < s.written and (link.index, OTHER[w]) not in held:
                     out.append((link, w))
         return out
 
-    async def sync():
+    async def sync(only=None):
         for link in links:
-            if not link.open:
+            if not link.open or (only is not None and link is not only):
                 continue
             for side in (CLIENT, SERVER):
                 if link.stream[side].written and link.dlc[side] is not None:
                     state['wait'] = ('drain', link.index, side)
                     await link.dlc[side].drain()
-        while pending():
-            link, w = pending()[0]
+        while [p for p in pending() if only is None or p[0] is only]:
+            link, w = [p for p in pending() if only is None or p[0] is only][0]
             state['wait'] = ('arrival', link.index, w)
             arrived.clear()
             await arrived.wait()
         state['wait'] = None
+
+    def release(link: Link, reader: str) -> None:
+        """Give the reader its sink back: everything that arrived meanwhile is delivered now, once, in order."""
+        if held.pop((link.index, reader), None) is None:
+            return
+        calls = [0]
+        inner = make_sink(link, reader)
+
+        def counting(data):
+            calls[0] += 1
+            inner(data)
+
+        link.dlc[reader].sink = counting
+        flushed = calls[0]
+        link.dlc[reader].sink = inner  # (a second assignment must not deliver anything again)
+        link.releases = getattr(link, 'releases', 0) + 1
+        col.labels.add('sink_release')
+        if flushed:
+            col.labels.add('sink_release_delivers_queue')
+        if flushed >= 16:
+            col.labels.add('sink_release_16plus_frames')
+        if flushed >= queue_cap:
+            col.labels.add('sink_release_full_queue')
+        if link.releases >= 2:
+            col.labels.add('sink_released_twice_on_one_link')
 
     def check_ledger() -> bool:
         failure, stats = rig.monitor.analyse()
@@ -491,6 +600,17 @@ def exec_rfcomm(case) -> Collector:
                              f'link {link.index}: the {side} DLC believes it holds {have} credits; initial + granted '
                              f'- data frames on the wire = {wire}')
                     return False
+                # the same ledger seen from the receiver: what it advertised + what it granted on the wire
+                # - data frames it received
+                book = stats['book'].get((link.dlci, side))
+                mine = getattr(dlc, 'rx_credits', None)
+                if book is not None and mine is not None and book != mine:
+                    col.fail('rfcomm/credit_ledger_drift/receiver',
+                             f'link {link.index}: the {side} DLC believes its peer holds {mine} credits '
+                             f'(rx_credits); initial + credits it sent - data frames it received = {book}')
+                    return False
+                if book is not None:
+                    col.labels.add('receiver_ledger_compared')
         return True
 
     async def open_link(link: Link, reopen: bool) -> bool:
@@ -541,7 +661,6 @@ def exec_rfcomm(case) -> Collector:
     async def driver():
         nonlocal arrived
         arrived = asyncio.Event()
-        muxes = {CLIENT: rig.client_mux, SERVER: rig.server_mux}
         if rig.server_mux is None or rig.server_mux.state != rfcomm.Multiplexer.State.CONNECTED \
                 or rig.client_mux.state != rfcomm.Multiplexer.State.CONNECTED:
             col.fail('rfcomm/state/after_mux_connect',
@@ -562,6 +681,12 @@ def exec_rfcomm(case) -> Collector:
                 link = links[li]
                 try:
                     for _ in range(count):
+                        if (li, OTHER[side]) in held:
+                            # the reader has no sink: stay within the frames a DLC keeps for a late sink
+                            cost = -(-size // max(1, frame_of(link, side) - 1))
+                            if held[(li, OTHER[side])] < cost:
+                                break
+                            held[(li, OTHER[side])] -= cost
                         link.dlc[side].write(link.stream[side].take(size))
                 except Exception as e:  # noqa: BLE001
                     col.fail(f'rfcomm/write_raises/{type(e).__name__}',
@@ -573,12 +698,42 @@ def exec_rfcomm(case) -> Collector:
                 await sync()
                 if not check_streams() or not check_ledger():
                     return
+            elif kind == 'hold':
+                li, reader = int(op[1]), op[2]
+                if li >= len(links) or not links[li].open or (li, reader) in held:
+                    continue
+                link = links[li]
+                # nothing of this direction is in flight when the sink goes away
+                await sync(only=link)
+                if not check_streams() or not check_ledger():
+                    return
+                col.labels.add('sink_hold')
+                link.dlc[reader].sink = None
+                held[(li, reader)] = queue_cap
+            elif kind == 'release':
+                li, reader = int(op[1]), op[2]
+                if li >= len(links) or not links[li].open:
+                    continue
+                release(links[li], reader)
+                if not check_streams():
+                    return
+            elif kind == 'session':
+                if not await next_session(op):
+                    return
             elif kind == 'close':
                 li, side = int(op[1]), op[2]
                 if li >= len(links) or not links[li].open:
                     continue
                 link = links[li]
-                await sync()
+                for reader in (CLIENT, SERVER):
+                    release(link, reader)
+                if len(op) > 3 and op[3]:
+                    # only this link is drained: the others may have frames in flight while it closes
+                    if any(p[0] is not link for p in pending()):
+                        col.labels.add('close_while_other_links_in_flight')
+                    await sync(only=link)
+                else:
+                    await sync()
                 if not check_streams() or not check_ledger():
                     return
                 col.labels.add({CLIENT: 'close_by_client', SERVER: 'close_by_server'}.get(side, 'close_by_both'))
@@ -598,6 +753,7 @@ def exec_rfcomm(case) -> Collector:
                 state['wait'] = None
                 await asyncio.sleep(1.0)
                 link.open = False
+                muxes = {CLIENT: rig.client_mux, SERVER: rig.server_mux}
                 mine, theirs = link.dlc[side], link.dlc[OTHER[side]]
                 if mine.state not in CLOSED or muxes[side].dlcs.get(link.dlci) is mine:
                     col.fail('rfcomm/state/closer_not_closed',
@@ -644,12 +800,19 @@ def exec_rfcomm(case) -> Collector:
                              f'{sorted(rig.client_mux.dlcs)}/{sorted(rig.server_mux.dlcs)}')
                     return
         state['op'] = 'end'
+        await teardown(case.get('end') or 'none')
+
+    async def teardown(end: str) -> bool:
+        """Drain, compare, then end the RFCOMM session as `end` says; False = a violation was recorded."""
+        for link in links:
+            if link.open:
+                for reader in (CLIENT, SERVER):
+                    release(link, reader)
         await sync()
         if not check_streams() or not check_ledger():
-            return
-        end = case.get('end') or 'none'
+            return False
         if end == 'none':
-            return
+            return True
         n_open = sum(1 for l in links if l.open)
         if n_open:
             col.labels.add('mux_teardown_with_open_dlcs')
@@ -661,27 +824,71 @@ def exec_rfcomm(case) -> Collector:
                 await rig.server_mux.disconnect()
             elif end == 'shutdown':
                 await rig.client.shutdown()
+            elif end == 'acl_c':
+                await rig.conn_c.disconnect()
+            elif end == 'acl_s':
+                await rig.conn_s.disconnect()
         except asyncio.CancelledError:
             raise
         except Exception as e:  # noqa: BLE001
             col.fail(f'rfcomm/teardown_fails/{end}/{type(e).__name__}', f'{end} raised {e!r} at {_site(e)}')
-            return
+            return False
         state['wait'] = None
         await asyncio.sleep(1.0)
         D = rfcomm.Multiplexer.State.DISCONNECTED
-        if rig.client_mux.state != D or rig.server_mux.state != D:
+        if end in ('acl_c', 'acl_s'):
+            # the link is gone under an open session: both ends must see the same thing
+            col.labels.add('acl_loss_under_session')
+            if rig.client_mux.state != rig.server_mux.state:
+                col.fail('rfcomm/state/after_acl_disconnect',
+                         f'after the ACL link was closed ({end}): client multiplexer {rig.client_mux.state.name}, '
+                         f'server multiplexer {rig.server_mux.state.name}')
+                return False
+        elif rig.client_mux.state != D or rig.server_mux.state != D:
             col.fail('rfcomm/state/mux_disconnect_not_mirrored',
                      f'after {end}: client multiplexer {rig.client_mux.state.name}, server multiplexer '
                      f'{rig.server_mux.state.name}')
-            return
-        if end == 'shutdown':
+            return False
+        if end in ('shutdown', 'acl_c', 'acl_s'):
             for link in links:
                 if link.open:
                     a, b = link.dlc[CLIENT].state, link.dlc[SERVER].state
                     if (a in CLOSED) != (b in CLOSED) or a not in CLOSED:
-                        col.fail('rfcomm/state/dlc_open_after_shutdown',
-                                 f'after Client.shutdown(): client DLC {a.name}, server DLC {b.name}')
-                        return
+                        col.fail('rfcomm/state/dlc_open_after_shutdown' if end == 'shutdown' else
+                                 'rfcomm/state/dlc_open_after_acl_disconnect',
+                                 f'after {end}: client DLC {a.name}, server DLC {b.name}')
+                        return False
+        return True
+
+    async def next_session(op) -> bool:
+        """['session', how, client L2CAP MTU, same Client object, [links to open again]]"""
+        how, client_mtu, same_client = op[1], int(op[2]), bool(op[3])
+        if not await teardown(how):
+            return False
+        for link in links:
+            link.open = False
+        col.labels.add(f'session_after:{how}')
+        state['wait'] = ('session', how)
+        try:
+            await rig.new_session(client_mtu, how in ('acl_c', 'acl_s'), same_client)
+        except asyncio.CancelledError:
+            raise
+        except Exception as e:  # noqa: BLE001
+            col.fail(f'rfcomm/session_after_{how}_fails/{type(e).__name__}',
+                     f'a new RFCOMM session after {how} could not be set up: {e!r} at {_site(e)}')
+            return False
+        state['wait'] = None
+        C = rfcomm.Multiplexer.State.CONNECTED
+        if rig.server_mux is None or rig.server_mux.state != C or rig.client_mux.state != C:
+            col.fail('rfcomm/state/after_mux_connect',
+                     f'after Client.start() (session after {how}): client multiplexer {rig.client_mux.state.name}, '
+                     f'server multiplexer {rig.server_mux.state.name if rig.server_mux else "never created"}')
+            return False
+        for li in op[4]:
+            if int(li) < len(links) and not links[int(li)].open:
+                if not await open_link(links[int(li)], True):
+                    return False
+        return True
 
     try:
         outcome = _run_rig(loop, rig, col, driver)
@@ -718,10 +925,29 @@ def exec_rfcomm(case) -> Collector:
                 col.fail('rfcomm/refused_open_hangs', f'open_dlc on a channel without listener: {how}')
             elif wait[0] == 'end':
                 col.fail(f'rfcomm/teardown_hangs/{wait[1]}', f'{wait[1]}: {how}')
+            elif wait[0] == 'session':
+                col.fail(f'rfcomm/session_after_{wait[1]}_hangs',
+                         f'Client.start() for a new RFCOMM session after {wait[1]}: {how}')
         elif outcome == 'budget':
+            # 300 000 loop iterations without reaching the end of the script (the longest well-behaved case needs
+            # about 1 000): the two ends keep each other busy without virtual time advancing
             col.labels.add('iteration_budget_hit')
-        # labels / statistics from the wire
-        _failure, stats = rig.monitor.analyse()
+            col.fail('rfcomm/progress/livelock', f'{LIVELOCK_ITERATIONS} event-loop iterations spent waiting for {state.get("wait")!r}: the '
+                                                 'stack keeps exchanging frames and never finishes the operation')
+        # labels / statistics from the wire (all sessions)
+        stats = None
+        for n, monitor in enumerate(rig.monitors):
+            failure, st_n = monitor.analyse()
+            if failure and n < len(rig.monitors) - 1 and not col.fails:
+                # frames of an earlier session (its teardown included)
+                col.fail(*failure)
+            if stats is None:
+                stats = st_n
+            else:
+                for key in ('data_frames', 'grants'):
+                    stats[key].update({(n,) + k: v for k, v in st_n[key].items()})
+                for key in ('credit_only', 'two_byte_len', 'frames'):
+                    stats[key] += st_n[key]
         col.stats = stats
         col.links = links
         col.loop_errors = list(loop.errors)
@@ -758,8 +984,8 @@ def run_rfcomm_case(ctx, case, record=True) -> None:
     stats = getattr(col, 'stats', None)
     ledger = False
     if stats:
-        for (dlci, side), n in stats['data_frames'].items():
-            if stats['grants'].get((dlci, side), 0) >= 3:
+        for key, n in stats['data_frames'].items():
+            if stats['grants'].get(key, 0) >= 3:
                 labels.add('ledger_replenished_3x')
             if n > 7 + 32:
                 labels.add('ledger_wrapped')
@@ -789,7 +1015,8 @@ def run_rfcomm_case(ctx, case, record=True) -> None:
         labels.add('several_streams')
     end = case.get('end') or 'none'
     labels.add(f'end:{end}')
-    nontrivial = ledger or len(case['links']) >= 2 or any(op[0] in ('close', 'reopen') for op in case['ops'])
+    nontrivial = ledger or len(case['links']) >= 2 or \
+        any(op[0] in ('close', 'reopen', 'hold', 'session') for op in case['ops'])
     ctx.case(('rfcomm', case), nontrivial, labels,
              sample={'rfcomm': {k: case[k] for k in ('carrier', 'l2cap_mtu', 'links', 'end')}, 'ops': case['ops'][:8]})
 
@@ -886,6 +1113,188 @@ def rfcomm_cases(draw, budget: int):
     return case
 
 
+@st.composite
+def rfcomm_hold_cases(draw):
+    """A reader is without sink for a while (DLC.sink = None ... DLC.sink = f): 1 .. DEFAULT_RX_QUEUE_SIZE frames
+    arrive meanwhile, the reader itself keeps writing, then the sink comes back; several rounds per link."""
+    fs = st.sampled_from([23, 24, 31, 43, 64, 100, 127, 128, 129, 255, 1000])
+    mtu = st.sampled_from([48, 64, 132, 133, 134, 256, 672, 1024, 2048])
+    cr = st.integers(1, 7)
+    case = {
+        'kind': 'rfcomm',
+        'carrier': draw(st.sampled_from(['classic', 'le'])),
+        'l2cap_mtu': [draw(mtu), draw(mtu)],
+        'dc': draw(st.lists(st.sampled_from([0, 0, 0, 1, 7, 50]), max_size=4)),
+        'ds': draw(st.lists(st.sampled_from([0, 0, 0, 1, 7, 50]), max_size=4)),
+    }
+    n = draw(st.sampled_from([1, 1, 2, 3]))
+    channels = draw(st.lists(st.integers(1, 30), min_size=n, max_size=n, unique=True))
+    links = [{'ch': ch, 'c': [draw(fs), draw(cr)], 's': [draw(fs), draw(cr)], 'early': 0} for ch in channels]
+    case['links'] = links
+    cap = int(getattr(rfcomm, 'DEFAULT_RX_QUEUE_SIZE', 32))
+    ops = []
+    for _ in range(draw(st.integers(1, 4))):
+        li = draw(st.integers(0, n - 1))
+        reader = draw(st.sampled_from([CLIENT, SERVER]))
+        writer = OTHER[reader]
+        eff = eff_frame(case, links[li], writer)
+        back = eff_frame(case, links[li], reader)
+        if draw(st.booleans()):
+            # the ledger is somewhere in its cycle when the sink goes away
+            ops.append(['wn', li, writer, eff, draw(st.integers(1, 40))])
+            if draw(st.booleans()):
+                ops.append(['wn', li, reader, back, draw(st.integers(1, 20))])
+        ops.append(['hold', li, reader])
+        frames = draw(st.sampled_from([0, 1, 2, 3, 8, 15, 16, 17, 24, cap - 1, cap, cap]))
+        left = frames
+        while left > 0:
+            per = draw(st.sampled_from([1, 1, 1, 2, 3]))       # frames per write
+            size = draw(st.sampled_from([per * (eff - 1), per * (eff - 1), per * (eff - 1) - 1, 1]))
+            size = max(1, size)
+            count = max(1, min(left // per, draw(st.sampled_from([1, 2, 5, 32]))))
+            ops.append(['wn', li, writer, size, count])
+            left -= per * count
+            what = draw(st.sampled_from(['', '', 'back', 'back', 'run', 'drain']))
+            if what == 'back':
+                ops.append(['wn', li, reader, draw(st.sampled_from([1, back - 1, back, 2 * back])),
+                            draw(st.sampled_from([1, 1, 3, 20]))])
+            elif what == 'run':
+                ops.append(['run', draw(st.sampled_from([0, 1, 10, 100]))])
+            elif what == 'drain':
+                ops.append(['sync'])
+        if n > 1 and draw(st.booleans()):
+            other = draw(st.integers(0, n - 1))
+            ops.append(['wn', other, draw(st.sampled_from([CLIENT, SERVER])), draw(st.integers(1, 300)),
+                        draw(st.integers(1, 10))])
+        ops.append(['run', draw(st.sampled_from([0, 10, 100, 1000]))])
+        tail = draw(st.sampled_from(['release', 'release', 'release', 'release+hold+release', 'close', 'end']))
+        if tail.startswith('release'):
+            ops.append(['release', li, reader])
+            if tail != 'release':
+                ops += [['hold', li, reader], ['release', li, reader]]
+            ops.append(['wn', li, writer, draw(st.sampled_from([1, eff, 3 * eff])), draw(st.sampled_from([1, 20, 60]))])
+            if draw(st.booleans()):
+                ops.append(['sync'])
+        elif tail == 'close':
+            ops.append(['close', li, draw(st.sampled_from([CLIENT, SERVER, 'b'])), draw(st.sampled_from([0, 1]))])
+            ops.append(['reopen', li])
+    case['ops'] = ops
+    case['end'] = draw(st.sampled_from(['none', 'none', 'mux_disc_c', 'mux_disc_s', 'shutdown']))
+    return case
+
+
+SESSION_ENDS = ['shutdown', 'mux_disc_c', 'mux_disc_s', 'acl_c', 'acl_s']
+
+
+@st.composite
+def rfcomm_session_cases(draw):
+    """Set-up, traffic, teardown and again: 2..3 RFCOMM sessions between the same two devices (same ACL link or a
+    new one), the data links re-opened on the same channels with a different client L2CAP MTU; data links closed
+    while the other links still have frames in flight."""
+    fs = st.one_of(st.sampled_from(FS), st.integers(23, 2000))
+    mtu = st.one_of(st.sampled_from(MTUS), st.integers(48, 4096))
+    cr = st.integers(1, 7)
+    case = {
+        'kind': 'rfcomm',
+        'carrier': draw(st.sampled_from(['classic', 'le'])),
+        'l2cap_mtu': [draw(mtu), draw(mtu)],
+        'dc': draw(st.lists(st.sampled_from([0, 0, 0, 1, 7, 50]), max_size=4)),
+        'ds': draw(st.lists(st.sampled_from([0, 0, 0, 1, 7, 50]), max_size=4)),
+    }
+    n = draw(st.sampled_from([1, 2, 2, 3]))
+    channels = draw(st.lists(st.integers(1, 30), min_size=n, max_size=n, unique=True))
+    links = [{'ch': ch, 'c': [draw(fs), draw(cr)], 's': [draw(fs), draw(cr)],
+              'early': draw(st.sampled_from([0, 0, 30]))} for ch in channels]
+    case['links'] = links
+    ops = []
+
+    def traffic():
+        for _ in range(draw(st.integers(1, 4))):
+            li = draw(st.integers(0, n - 1))
+            w = draw(st.sampled_from([CLIENT, SERVER]))
+            eff = eff_frame(case, links[li], w)
+            size = draw(st.sampled_from([1, eff - 1, eff, eff + 1, 2 * eff, 3 * eff]))
+            count = draw(st.sampled_from([1, 2, 8, 20, 45]))
+            count = max(1, min(count, 20_000 // max(1, size)))
+            ops.append(['wn', li, w, max(1, size), count])
+            if n > 1 and draw(st.integers(0, 3)) == 0:
+                # close one link while the others are busy, open it again later (or in the next session)
+                victim = draw(st.integers(0, n - 1))
+                ops.append(['close', victim, draw(st.sampled_from([CLIENT, SERVER, 'b'])), 1])
+                if draw(st.booleans()):
+                    ops.append(['reopen', victim])
+
+    traffic()
+    for _ in range(draw(st.sampled_from([1, 1, 2]))):
+        how = draw(st.sampled_from(SESSION_ENDS))
+        again = draw(st.lists(st.integers(0, n - 1), min_size=1, max_size=n, unique=True))
+        ops.append(['session', how, draw(st.one_of(st.just(case['l2cap_mtu'][0]), mtu)),
+                    draw(st.sampled_from([0, 1])), again])
+        traffic()
+    case['ops'] = ops
+    case['end'] = draw(st.sampled_from(['none'] + SESSION_ENDS))
+    return case
+
+
+def hold_enumeration(quick: bool) -> list:
+    """Directed: exactly k frames arrive while the reader has no sink, k around the replenishment threshold and
+    up to the capacity of the DLC's queue; one write per frame with the credits coming back in between."""
+    cap = int(getattr(rfcomm, 'DEFAULT_RX_QUEUE_SIZE', 32))
+    out = []
+    i = 0
+    for frames in (1, 15, 16, 17, cap - 1, cap):
+        for reader in (CLIENT, SERVER):
+            for carrier in ('classic', 'le'):
+                for fs in (23, 128, 1000):
+                    i += 1
+                    if quick and i % 3 != frames % 3:
+                        continue
+                    writer = OTHER[reader]
+                    case = {'kind': 'rfcomm', 'carrier': carrier, 'l2cap_mtu': [2048, 2048],
+                            'dc': [1] if i % 2 else [], 'ds': [],
+                            'links': [{'ch': 1 + i % 30, 'c': [fs, 1 + i % 7], 's': [fs, 1 + (i // 2) % 7], 'early': 0}]}
+                    ops = [['wn', 0, writer, fs, 5 * (i % 9)], ['hold', 0, reader]]
+                    for n in range(frames):
+                        ops += [['w', 0, writer, fs - 1], ['run', 2]]
+                        if n % 5 == 4:
+                            ops.append(['w', 0, reader, fs + 1])
+                    ops += [['release', 0, reader], ['wn', 0, writer, fs, 20], ['sync'],
+                            ['hold', 0, reader], ['w', 0, writer, 1], ['run', 2], ['release', 0, reader]]
+                    case['ops'] = ops
+                    case['end'] = 'none'
+                    out.append(case)
+    return out
+
+
+def session_enumeration(quick: bool) -> list:
+    """Directed: every way a session can end x carrier x same / new Client object, two data links, one of them
+    closed while the other is busy; the next session re-opens both with another client L2CAP MTU."""
+    out = []
+    i = 0
+    for how in SESSION_ENDS:
+        for carrier in ('classic', 'le'):
+            for same in (0, 1):
+                for fs, mtu2 in ((100, 64), (23, 2048), (1000, 133)):
+                    i += 1
+                    if quick and i % 3 != 0:
+                        continue
+                    case = {'kind': 'rfcomm', 'carrier': carrier, 'l2cap_mtu': [672, 672], 'dc': [], 'ds': [1] if i % 2 else [],
+                            'links': [{'ch': 3, 'c': [fs, 2], 's': [fs, 7], 'early': 0},
+                                      {'ch': 30, 'c': [127, 7], 's': [128, 1], 'early': 30}]}
+                    case['ops'] = [
+                        ['wn', 0, CLIENT, fs, 9], ['wn', 1, SERVER, 300, 3], ['wn', 0, SERVER, 2 * fs + 1, 2],
+                        ['close', 1, SERVER if i % 2 else CLIENT, 1], ['reopen', 1], ['wn', 1, CLIENT, 129, 4],
+                        ['session', how, mtu2 if not same else 672, same, [1, 0]],
+                        ['wn', 0, CLIENT, fs, 36], ['wn', 1, SERVER, 300, 3], ['wn', 0, SERVER, 2 * fs + 1, 2],
+                        ['close', 0, 'b', 1], ['wn', 1, CLIENT, 129, 4],
+                        ['session', SESSION_ENDS[(i + 2) % 5], 672, 1 - same, [0]],
+                        ['wn', 0, SERVER, 3 * fs, 3], ['wn', 0, CLIENT, 1, 9],
+                    ]
+                    case['end'] = (['none'] + SESSION_ENDS)[i % 6]
+                    out.append(case)
+    return out
+
+
 # ---------------------------------------------------------------------------
 # HFP
 # ---------------------------------------------------------------------------
@@ -915,10 +1324,15 @@ def is_final(line: str) -> bool:
 class AtTap:
     """AT monitor on the gateway's DLC: command lines in, response lines out, in causal order."""
 
-    def __init__(self, ag):
+    def __init__(self, ag, whole_chunks: bool = False):
         self.ag = ag
         self.events: list = []
         self.shadow = bytearray()
+        # whole_chunks: the gateway's reader gets every DLC chunk as it arrived (several command lines and
+        # partial lines in one piece); responses are then attributed in order of the final result codes
+        self.whole_chunks = whole_chunks
+        self.chunk_shapes: set = set()
+        self.unsolicited = False  # set by the harness while it makes the gateway send an unsolicited result code
         self._sink = ag.dlc.sink
         self._write = ag.dlc.write
         ag.dlc.sink = self.feed
@@ -926,6 +1340,8 @@ class AtTap:
 
     def feed(self, data: bytes) -> None:
         data = bytes(data)
+        if self.whole_chunks:
+            return self.feed_whole(data)
         pieces = []
         while data:
             i = data.find(b'\r')
@@ -952,19 +1368,59 @@ class AtTap:
                             self.shadow.clear()
                 raise
 
+    def feed_whole(self, data: bytes) -> None:
+        started_mid_line = bool(self.shadow)
+        self.shadow += data
+        lines = []
+        while True:
+            i = self.shadow.find(b'\r')
+            if i < 0:
+                break
+            line = bytes(self.shadow[:i]).decode('utf-8', 'replace').strip()
+            del self.shadow[: i + 1]
+            if line:
+                lines.append(line)
+        if len(lines) >= 2:
+            self.chunk_shapes.add('multi_command')
+        if lines and started_mid_line:
+            self.chunk_shapes.add('split_command')
+        if lines and self.shadow:
+            self.chunk_shapes.add('command_then_partial')
+        self.events.append(('chunk', lines))
+        try:
+            self._sink(data)
+        except Exception as e:  # noqa: BLE001 - recorded, then behaves as without the tap
+            self.events.append(('exc', e))
+            raise
+
     def write(self, data) -> None:
         text = data.decode('utf-8', 'replace') if isinstance(data, (bytes, bytearray)) else str(data)
-        self.events.append(('rsp', text))
+        self.events.append(('uns' if self.unsolicited else 'rsp', text))
         return self._write(data)
 
     def exchanges(self):
         """[(command line, [response lines], [exceptions])] in order of reception."""
         out = []
+        room = 0  # commands of the current chunk that have no final result code yet (whole_chunks)
         for ev in self.events:
             if ev[0] == 'cmd':
                 out.append((ev[1], [], []))
-            elif not out:
+            elif ev[0] == 'chunk':
+                # the gateway handles the lines of a chunk one after the other, synchronously: the k-th final
+                # result code written while the chunk is processed concludes its k-th command
+                for line in ev[1]:
+                    out.append((line, [], []))
+                room = len(ev[1])
                 continue
+            elif not out or ev[0] == 'uns':
+                continue
+            elif ev[0] == 'rsp' and room > 0:
+                for l in ev[1].split('\r\n'):
+                    if not l.strip():
+                        continue
+                    out[-room][1].append(l)
+                    if is_final(l) and room > 1:
+                        room -= 1
             elif ev[0] == 'rsp':
                 out[-1][1].extend(l for l in ev[1].split('\r\n') if l.strip())
             else:
@@ -1024,6 +1480,7 @@ def judge_at(col: Collector, tap: AtTap) -> None:
 def exec_hfp(case) -> Collector:
     col = Collector()
     loop = vloop.new_loop()
+    loop.max_iterations = LIVELOCK_ITERATIONS
     rf = case['rf']
     rcase = {'carrier': case['carrier'], 'l2cap_mtu': rf['l2cap_mtu'], 'dc': case.get('dc'), 'ds': case.get('ds')}
     rig = Rig(rcase)
@@ -1069,7 +1526,7 @@ def exec_hfp(case) -> Collector:
                 mode=hfp.CallInfoMode(int(c[3])), multi_party=hfp.CallInfoMultiParty(int(c[4])),
                 number=c[5], type=c[6]))
         hf = hfp.HfProtocol(cdlc, hf_config)
-        tap = AtTap(ag)
+        tap = AtTap(ag, whole_chunks=bool(case.get('whole_chunks')))
         state.update(tap=tap, hf=hf, ag=ag)
         # remember the last command the HF wrote (for signatures)
         hf_write = cdlc.write
@@ -1094,12 +1551,72 @@ def exec_hfp(case) -> Collector:
         judge_hfp(col, case, state, hf_mask, ag_mask)
         if state['slc'][0] != 'ok':
             return
+        both_codec = bool(hf_mask & int(HF.CODEC_NEGOTIATION)) and bool(ag_mask & int(AG.CODEC_NEGOTIATION))
+        hf_codecs = [int(c) for c in case['hf_codecs']]
+        if case.get('hf_loop'):
+            # the hands-free routine that answers unsolicited result codes (+BCS: ...)
+            state['hf_task'] = asyncio.ensure_future(hf.run())
+
+        async def compare_active_codec(how: str, codec: int) -> None:
+            await asyncio.sleep(0.5)
+            col.labels.add('active_codec_compared')
+            if not (int(hf.active_codec) == int(ag.active_codec) == codec):
+                col.fail('hfp/view/active_codec',
+                         f'after the codec connection set-up for codec {codec} ({how}) the HF holds active codec '
+                         f'{int(hf.active_codec)}, the AG {int(ag.active_codec)}')
+
         for i, cmd in enumerate(case.get('commands') or []):
             state['wait'] = ('command', i)
             kind = cmd[0]
             try:
                 if kind == 'api':
                     await getattr(hf, cmd[1])(*[int(a) for a in cmd[2:]])
+                    if cmd[1] == 'setup_codec_connection':
+                        if int(cmd[2]) in hf_codecs:
+                            await compare_active_codec('AT+BCS by the HF', int(cmd[2]))
+                        else:
+                            # the HF does not have that codec: it has sent its list again (AT+BAC)
+                            await asyncio.sleep(0.2)
+                            col.labels.add('codecs_resent')
+                            if [int(c) for c in ag.supported_audio_codecs] != hf_codecs:
+                                col.fail('hfp/view/codecs', f'AG holds HF codecs '
+                                         f'{[int(c) for c in ag.supported_audio_codecs]} after the HF has sent its '
+                                         f'list again, the HF offers {hf_codecs}')
+                elif kind == 'ag':
+                    # codec connection set-up started by the gateway: +BCS: <codec>, answered by AT+BCS=<codec>
+                    codec = int(cmd[2])
+                    if cmd[1] != 'negotiate_codec' or not both_codec or codec not in hf_codecs \
+                            or not case.get('hf_loop'):
+                        continue
+                    col.labels.add('command:ag_negotiate_codec')
+                    tap.unsolicited = True
+                    task = asyncio.ensure_future(ag.negotiate_codec(hfp.AudioCodec(codec)))
+                    await asyncio.sleep(0)
+                    tap.unsolicited = False
+                    try:
+                        await asyncio.wait_for(task, 10.0)
+                    except asyncio.TimeoutError:
+                        col.fail('hfp/codec_negotiation_hangs',
+                                 f'AgProtocol.negotiate_codec({codec}) not finished after 10 virtual seconds although '
+                                 f'both sides support codec negotiation and the HF offers {hf_codecs}')
+                        break
+                    except hfp.HfpProtocolError as e:
+                        col.fail('hfp/codec_negotiation_fails', f'AgProtocol.negotiate_codec({codec}) raised {e!r}')
+                        break
+                    await compare_active_codec('+BCS by the AG', codec)
+                elif kind == 'burst':
+                    # several command lines handed to RFCOMM at once (one write, or one write per line without
+                    # waiting): the gateway gets them in chunks cut by the frame size and the credits
+                    text = [line + '\r' for line in cmd[1]]
+                    limit = min(int(rf['s'][0]), int(rf['l2cap_mtu'][1]) - 5)
+                    if any(len(t) > limit for t in text):
+                        col.labels.add('at_command_longer_than_frame')
+                    if cmd[2] == 'one':
+                        cdlc.write(''.join(text))
+                    else:
+                        for t in text:
+                            cdlc.write(t)
+                    await asyncio.sleep(1.0 + 0.1 * len(text))
                 elif kind == 'cmd':
                     rt = {'none': hfp.AtResponseType.NONE, 'single': hfp.AtResponseType.SINGLE,
                           'multiple': hfp.AtResponseType.MULTIPLE}[cmd[2] if len(cmd) > 2 else 'none']
@@ -1114,6 +1631,8 @@ def exec_hfp(case) -> Collector:
             await asyncio.sleep(0.2)
         state['wait'] = None
         await asyncio.sleep(2.0)
+        if state.get('hf_task') is not None:
+            state['hf_task'].cancel()
 
     try:
         outcome = _run_rig(loop, rig, col, driver)
@@ -1140,6 +1659,8 @@ def exec_hfp(case) -> Collector:
             col.fail(*failure)
         col.loop_errors = list(loop.errors)
         col.exchanges = tap.exchanges() if tap is not None else []
+        for shape in (tap.chunk_shapes if tap is not None else ()):
+            col.labels.add(f'at_chunk:{shape}')
     finally:
         loop.shutdown()
     return col
@@ -1375,7 +1896,77 @@ ENUM_CONFIGS = [
 ]
 
 
-def hfp_cases(masks=None, with_commands=True):
+def hf_role_lines():
+    """The command lines of the HF-role table (as text)."""
+    return hf_role_commands().filter(lambda c: c[0] == 'cmd').map(lambda c: c[1])
+
+
+def long_lines():
+    """Valid command lines that do not fit a small RFCOMM frame."""
+    return st.one_of(
+        st.text('0123456789', min_size=20, max_size=70).map(lambda n: f'ATD{n};'),
+        st.lists(st.sampled_from(['0', '1', '']), min_size=10, max_size=40).map(lambda l: 'AT+BIA=' + ','.join(l)),
+        st.lists(st.sampled_from(['1', '2', '3']), min_size=10, max_size=30).map(lambda l: 'AT+BAC=' + ','.join(l)),
+        st.lists(st.sampled_from(['1', '2']), min_size=10, max_size=30).map(lambda l: 'AT+BIND=' + ','.join(l)),
+    )
+
+
+def burst_commands():
+    line = st.integers(0, 9).flatmap(
+        lambda n: raw_commands().map(lambda c: c[1]) if n < 4 else (hf_role_lines() if n < 7 else long_lines()))
+    return st.tuples(st.lists(line, min_size=2, max_size=10), st.sampled_from(['one', 'one', 'each'])).map(
+        lambda t: ['burst', t[0], t[1]])
+
+
+def codec_commands():
+    return st.one_of(
+        st.sampled_from([1, 2, 3]).map(lambda c: ['ag', 'negotiate_codec', c]),
+        st.sampled_from([1, 2, 3]).map(lambda c: ['api', 'setup_codec_connection', c]),
+    )
+
+
+def codec_enumeration() -> list:
+    """Directed: codec connection set-ups started by the gateway and by the hands-free side, one after the other,
+    for every codec of three HF codec lists, over 23- and 1000-byte frames."""
+    out = []
+    for k, base in enumerate((ENUM_CONFIGS[1], dict(ENUM_CONFIGS[1], rf=_ENUM_BASE['rf']))):
+        for codecs in ([1, 2], [1, 2, 3], [2, 1], [1]):
+            commands = []
+            for c in codecs:
+                other = [x for x in (1, 2, 3) if x != c]
+                commands += [['ag', 'negotiate_codec', c], ['api', 'setup_codec_connection', other[0]],
+                             ['burst', ['AT+BCC', f'AT+BCS={other[1]}', 'AT+VGS=3'], 'one'],
+                             ['api', 'setup_codec_connection', c], ['ag', 'negotiate_codec', c]]
+            out.append(dict(base, hf_codecs=codecs, carrier='le' if (k + len(codecs)) % 2 else 'classic',
+                            whole_chunks=True, hf_loop=True, commands=commands))
+    return out
+
+
+def hfp_session_cases():
+    """Configurations as in hfp_cases; programs of bursts of command lines, codec connection set-ups started by
+    either side (the HF routine that answers unsolicited result codes is running), single commands; small frames."""
+    codec = (int(HF.CODEC_NEGOTIATION), int(AG.CODEC_NEGOTIATION))
+    masks = st.one_of(
+        st.tuples(st.integers(0, HF_ALL), st.integers(0, AG_ALL)),
+        st.tuples(st.integers(0, HF_ALL).map(lambda h: h | codec[0]), st.integers(0, AG_ALL).map(lambda a: a | codec[1])),
+        st.tuples(st.integers(0, HF_ALL).map(lambda h: h | codec[0]), st.integers(0, AG_ALL).map(lambda a: a | codec[1])),
+        st.tuples(st.integers(0, HF_ALL).map(lambda h: h | codec[0]), st.integers(0, AG_ALL).map(lambda a: a | codec[1])),
+    )
+    fs = st.sampled_from([23, 23, 24, 27, 30, 40, 64, 1000])
+    rf = st.fixed_dictionaries({
+        'ch': st.integers(1, 30),
+        'c': st.tuples(fs, st.integers(1, 7)).map(list),
+        's': st.tuples(fs, st.integers(1, 7)).map(list),
+        'l2cap_mtu': st.tuples(st.sampled_from([48, 64, 672]), st.sampled_from([48, 64, 672])).map(list),
+    })
+    one = st.integers(0, 9).flatmap(
+        lambda n: burst_commands() if n < 5 else (codec_commands() if n < 8 else
+                                                  (raw_commands() if n < 9 else hf_role_commands())))
+    return hfp_cases(masks=masks, commands=st.lists(one, min_size=1, max_size=5), rf=rf,
+                     extra={'whole_chunks': st.just(True), 'hf_loop': st.sampled_from([True, True, True, False])})
+
+
+def hfp_cases(masks=None, with_commands=True, commands=None, rf=None, extra=None):
     mask_st = masks if masks is not None else st.one_of(
         st.tuples(st.integers(0, HF_ALL), st.integers(0, AG_ALL)),
         st.tuples(st.lists(st.sampled_from(HF_BITS), unique=True).map(sum),
@@ -1385,7 +1976,8 @@ def hfp_cases(masks=None, with_commands=True):
     hf_ind = st.lists(st.sampled_from([1, 2, 3]), max_size=4)
     # (flatmap keeps one_of from flattening the big HF-role alternative into the choice: 40 % raw lines)
     one_command = st.integers(0, 4).flatmap(lambda n: raw_commands() if n < 2 else hf_role_commands())
-    commands = st.lists(one_command, max_size=5) if with_commands else st.just([])
+    if commands is None:
+        commands = st.lists(one_command, max_size=5) if with_commands else st.just([])
     calls = st.lists(
         st.tuples(st.integers(1, 3), st.integers(0, 1), st.integers(0, 5), st.sampled_from([0, 1, 2, 9]),
                   st.integers(0, 1), st.one_of(st.none(), st.text('0123456789', min_size=1, max_size=8)),
@@ -1394,7 +1986,7 @@ def hfp_cases(masks=None, with_commands=True):
     return st.fixed_dictionaries({
         'kind': st.just('hfp'),
         'carrier': st.sampled_from(['classic', 'le']),
-        'rf': rf_st,
+        'rf': rf if rf is not None else rf_st,
         'dc': st.lists(st.sampled_from([0, 0, 1, 5]), max_size=3),
         'ds': st.lists(st.sampled_from([0, 0, 1, 5]), max_size=3),
         'masks': mask_st,
@@ -1407,6 +1999,7 @@ def hfp_cases(masks=None, with_commands=True):
         'chld': st.lists(st.sampled_from(CHLD_OPS), unique=True, max_size=7),
         'calls': calls,
         'commands': commands,
+        **(extra or {}),
     }).map(_flatten_masks)
 
 
@@ -1440,6 +2033,15 @@ def run(ctx) -> None:
     selftest()
     budget = ctx.pick(40_000, 250_000)
     ctx.hyp('rfcomm', lambda c: run_rfcomm_case(ctx, c), rfcomm_cases(budget), max_examples=ctx.n(320, 16000))
+    # extension: readers without sink, sessions one after the other; small directed families first (every shard
+    # runs them: their labels have floors), then sampled programs
+    directed = hold_enumeration(ctx.quick) + session_enumeration(ctx.quick)
+    ctx.extra['directed_rfcomm_cases'] = len(directed)
+    for case in directed:
+        run_rfcomm_case(ctx, case)
+    ctx.hyp('rfcomm_hold', lambda c: run_rfcomm_case(ctx, c), rfcomm_hold_cases(), max_examples=ctx.n(60, 2400))
+    ctx.hyp('rfcomm_sessions', lambda c: run_rfcomm_case(ctx, c), rfcomm_session_cases(),
+            max_examples=ctx.n(50, 1600))
 
     # HFP: fixed feature-mask families (sharded), then sampled configurations with command programs
     fixed = list(pairwise_masks())
@@ -1478,13 +2080,46 @@ def run(ctx) -> None:
         case = dict(configs[k], carrier='le' if j % 2 else 'classic', commands=[['raw', l] for l in sess])
         run_hfp_case(ctx, case)
 
+    # the same lines in bursts: 8 (thorough also 3 and 5) lines per write, so that every line is cut by the frame
+    # size at varying offsets and shares chunks with its neighbours; configurations with 1000-, 23- and 30-byte
+    # frames; then bursts and codec connection set-ups on sampled configurations
+    for case in codec_enumeration():
+        run_hfp_case(ctx, case)
+    ctx.hyp('hfp_sessions', lambda c: run_hfp_case(ctx, c), hfp_session_cases(), max_examples=ctx.n(100, 8000))
+    burst_configs = [ENUM_CONFIGS[k] for k in ctx.pick((0, 1), (0, 1, 2, 3))]
+    long = ['ATD' + '1234567890' * 4 + ';', 'AT+BIA=' + ','.join(['1', '0', ''] * 8),
+            'AT+BAC=' + ','.join(['1', '2'] * 12), 'AT+BIND=' + ','.join(['1', '2'] * 12)]
+    mixed = []
+    for i, line in enumerate(lines):
+        if i % 16 == 5:
+            mixed.append(long[(i // 16) % len(long)])  # a line longer than a small frame now and then
+        mixed.append(line)
+    jobs = []
+    for width in ctx.pick((8,), (8, 3, 5)):
+        jobs += [(cfg, mixed[i:i + width]) for cfg in burst_configs for i in range(0, len(mixed), width)]
+    for j, (cfg, sess) in enumerate(jobs):
+        if j % ctx.nshards != ctx.shard or ctx.out_of_time():
+            continue
+        case = dict(cfg, carrier='le' if j % 2 else 'classic', whole_chunks=True,
+                    commands=[['burst', sess, 'each' if j % 3 == 2 else 'one']])
+        run_hfp_case(ctx, case)
+
     for label, n in (('carrier:classic', 10), ('carrier:le', 10), ('dlcs:1', 5), ('dlcs:2', 5), ('dlcs:3', 3),
                      ('dlcs:4', 3), ('beyond_initial_credits', 20), ('ledger_wrapped', 5), ('credit_only_frames', 10),
                      ('l2cap_mtu_limits_frame', 10), ('two_byte_length', 5), ('close_by_client', 5),
                      ('close_by_server', 5), ('reopen', 5), ('mux_teardown_with_open_dlcs', 10), ('delayed', 20),
                      ('slc_completed', 50), ('hf_indicators_negotiated', 10), ('codecs_negotiated', 10),
                      ('chld_negotiated', 10), ('duplicate_ag_indicator', 5), ('command:api', 10), ('command:cmd', 10),
-                     ('command:raw', 10)):
+                     ('command:raw', 10),
+                     # extension: sink-less readers, receiver-side ledger, sessions, bursts, codec connections
+                     ('sink_hold', 20), ('sink_release_delivers_queue', 10), ('sink_release_16plus_frames', 3),
+                     ('sink_release_full_queue', 1), ('sink_released_twice_on_one_link', 5),
+                     ('receiver_ledger_compared', 100), ('close_while_other_links_in_flight', 3),
+                     ('session_after:shutdown', 2), ('session_after:mux_disc_c', 2), ('session_after:mux_disc_s', 2),
+                     ('session_after:acl_c', 2), ('session_after:acl_s', 2),
+                     ('command:burst', 30), ('at_chunk:multi_command', 15), ('at_chunk:split_command', 15),
+                     ('at_command_longer_than_frame', 10), ('command:ag_negotiate_codec', 5),
+                     ('active_codec_compared', 10)):
         ctx.floor(label, n)
 
 
